@@ -443,6 +443,29 @@ fn et_case(ctx: &mut Ctx, idx: usize, rng: &mut Rng) {
     let trav = edge_id(rng);
     let nbr = if rng.chance(1, 4) { None } else { Some(edge_id(rng)) };
     let forward = rng.chance(1, 2);
+    // a missing end vertex on the neighbouring edge: only one of its two ends is looked up
+    if let Some(k) = nbr {
+        if k < 5 && k != trav && (2..5).contains(&fault) {
+            if rng.chance(1, 2) {
+                edges[k].0 = nv + 1;
+            } else {
+                edges[k].1 = nv + 1;
+            }
+        }
+    }
+    // the turn surcharge depends on the order of the pair
+    let mut feats = feats;
+    if let Some(k) = nbr {
+        let mut table = vec![((k, trav), 0.5 + value(rng).abs())];
+        if k != trav {
+            table.push(((trav, k), 100.0 + value(rng).abs()));
+        }
+        let turn = NR::Pair(table);
+        feats[0].nrate = Some(match feats[0].nrate.take() {
+            Some(r) if rng.chance(1, 2) => NR::Combined(vec![r, turn]),
+            _ => turn,
+        });
+    }
     let state = |rng: &mut Rng, n: usize| -> Vec<f64> { (0..n).map(|_| value(rng).abs()).collect() };
     let prev = state(rng, n);
     let short = |rng: &mut Rng| if rng.chance(1, 10) { rng.below(n) } else { n };
@@ -530,7 +553,15 @@ fn et_case(ctx: &mut Ctx, idx: usize, rng: &mut Rng) {
         };
         Some(r.map(|et| {
             let shown = format!("{}", et);
-            (et.edge_id.0, et.access_cost.as_f64(), et.traversal_cost.as_f64(), et.total_cost().as_f64(), et.result_state.iter().map(|x| x.0).collect::<Vec<f64>>(), shown)
+            // what traversal_cost charges for this edge on the state the traversal model left
+            let charged = si
+                .directed_graph
+                .get_edge(&EdgeId(trav))
+                .ok()
+                .and_then(|e| si.cost_model.traversal_cost(e, &p, &et.result_state).ok())
+                .map(|c| c.as_f64())
+                .unwrap_or(f64::NAN);
+            (et.edge_id.0, et.access_cost.as_f64(), et.traversal_cost.as_f64(), et.total_cost().as_f64(), et.result_state.iter().map(|x| x.0).collect::<Vec<f64>>(), shown, charged)
         }))
     }));
     ctx.count(if forward { "et_forward" } else { "et_reverse" });
@@ -547,7 +578,7 @@ fn et_case(ctx: &mut Ctx, idx: usize, rng: &mut Rng) {
                 _ => "other",
             }
         ),
-        Ok(Some(Ok((id, a, s, t, state, shown)))) => {
+        Ok(Some(Ok((id, a, s, t, state, shown, _)))) => {
             let same = |x: f64, y: f64| x.to_bits() == y.to_bits() || (x.is_nan() && y.is_nan());
             let disp = match parse_edge_traversal_display(shown) {
                 Some((pid, pa, ps, pst)) if pid == *id && same(pa, *a) && same(ps, *s) && pst.len() == state.len() && pst.iter().zip(state.iter()).all(|(x, y)| same(*x, *y)) => "display-ok".to_string(),
@@ -590,9 +621,14 @@ fn et_case(ctx: &mut Ctx, idx: usize, rng: &mut Rng) {
         if got != expected {
             ctx.fail(idx, "edge_traversal/outcome", format!("{} traversal of edge {} with neighbour {:?}: {} expected {}", if forward { "forward" } else { "reverse" }, trav, nbr, got, expected));
         }
-        if let Ok((_, a, _, t, state, _)) = res {
-            if !(t.is_finite() && *t > 0.0) && !(*t == 0.0 && *a >= 1.0e5) {
-                ctx.fail(idx, "edge_traversal/total-not-positive", format!("total_cost() = {}", t));
+        if let Ok((_, a, _, t, state, _, charged)) = res {
+            if *t == 0.0 && *charged > 0.0 && *charged <= a * f64::EPSILON {
+                // the recorded rounding finding: the charged total is below one ulp of the access share
+                ctx.fail(idx, "edge_traversal/floor-absorbed", format!("access {} + (total {} - access) = {}", a, charged, t));
+            } else if !(t.is_finite() && *t > 0.0) {
+                ctx.fail(idx, "edge_traversal/total-not-positive", format!("total_cost() = {} (access {}, charged {})", t, a, charged));
+            } else if (t - charged).abs() > REL * (a.abs() + charged.abs()) {
+                ctx.fail(idx, "edge_traversal/total-differs", format!("total_cost() = {} but traversal_cost charged {} (access {})", t, charged, a));
             }
             if state.len() != traverse.as_ref().map(|s| s.len()).unwrap_or(usize::MAX) {
                 ctx.fail(idx, "edge_traversal/result-state", "result_state is not what the traversal model left".into());
@@ -1064,6 +1100,9 @@ fn cfg_case(ctx: &mut Ctx, idx: usize, rng: &mut Rng) {
             cfg.insert("cost_aggregation".into(), json!({"mul": null}));
             cfg_mul = true;
         }
+        3 => {
+            cfg.insert("cost_aggregation".into(), json!({"sum": null}));
+        }
         _ => {}
     }
     match rng.below(5) {
@@ -1092,7 +1131,7 @@ fn cfg_case(ctx: &mut Ctx, idx: usize, rng: &mut Rng) {
                 m.insert("cost_aggregation".into(), json!("Sum"));
             }
             3 => {
-                m.insert("cost_aggregation".into(), json!({"sum": null, "mul": null}));
+                m.insert("cost_aggregation".into(), if rng.chance(1, 2) { json!({"sum": null, "mul": null}) } else { json!({"sum": true}) });
             }
             4 => {
                 m.insert("ignore_unknown_user_provided_weights".into(), json!("yes"));
@@ -1422,8 +1461,13 @@ fn write_lookup(rng: &mut Rng, dir: &str, tag: &str, pair: bool, nonfinite: &mut
         if short {
             cells.pop();
         }
-        text.push_str(&cells.join(","));
+        let row_text = cells.join(",");
+        text.push_str(&row_text);
         text.push('\n');
+        if row_text.is_empty() {
+            // an empty line is no record: the csv reader skips it
+            continue;
+        }
         let ok = bad == 0 && !short && !matches!(fault, FileFault::MissingColumn);
         if pair {
             prows.push(if ok { Some(((a, b), cost)) } else { None });
@@ -1719,5 +1763,7 @@ pub fn run_io(ctx: &mut Ctx) {
         let mut rng = Rng::for_case(ctx.seed, 7, idx as u64);
         ncb_case(ctx, idx, &mut rng, &dir);
     }
-    let _ = std::fs::remove_dir_all(&dir);
+    if std::env::var("C07_KEEP_SCRATCH").is_err() {
+        let _ = std::fs::remove_dir_all(&dir);
+    }
 }
